@@ -633,6 +633,13 @@ def _r_ident(ck, world, table) -> None:
                     inner = show(f[1])
                     if 'isinstance' in inner and 'IdentityOperator' in inner and 'block_leaves' in inner:
                         guard = 'all blocks are identities'
+                # the same test written with the tree helpers: jax.tree.all(X._tree_map(lambda b: isinstance(b, IdentityOperator)))
+                if f[0] == 'truth' and f[2] is True and f[1][0] == 'call' and f[1][1] == ('attr', ('attr', ('var', 'jax'), 'tree'), 'all') and len(f[1][2]) == 1:
+                    a = f[1][2][0]
+                    if a[0] == 'call' and a[1][0] == 'attr' and a[1][2] == '_tree_map' and len(a[2]) == 1 and a[2][0][0] == 'lambda' and len(a[2][0][1]) == 1:
+                        body = a[2][0][2]
+                        if body == ('call', ('var', 'isinstance'), (('var', a[2][0][1][0]), ('var', 'IdentityOperator')), ()):
+                            guard = 'all blocks are identities'
             ck.expect('R-IDENT', guard is not None and struct_ok, fn,
                       f'returns the identity on self.in_structure() only under the no-op guard ({guard})',
                       f'{cls.name}.reduce returns an identity ' + ('without a dominating no-op guard' if guard is None else f'on {show(rt[2])} instead of self.in_structure()')
